@@ -260,8 +260,171 @@ def _replay_merge(model, obligation):
     return dict(confirmed=False, note='no failing input in the bounded enumeration')
 
 
+def frag_read_result(eng, fdef):
+    """the statement that hands the decoded response of poller_modbus._read to the poll loop (its last statement)"""
+    import ast
+    last = fdef.body[-1]
+    if not isinstance(last, ast.Return) or 'values' not in ast.unparse(last):
+        raise Unsupported('stale contract: poller_modbus._read does not end with `return ... values ...`')
+    return [last]
+
+
+def replay_read_result(model, obligation):
+    """the real _read over an in-process slave whose coils are all ON (bits travel packed 8 to a byte, padded with OFF bits)"""
+    from cpppo.remote import plc_modbus as pm
+    from pymodbus.pdu import bit_message as bm
+
+    class Slave(pm.modbus_client_tcp):
+        def connect(self):
+            return True
+
+        def execute(self, no_response_expected, request):
+            resp = bm.ReadCoilsResponse()
+            resp.decode(bm.ReadCoilsResponse(bits=[True] * request.count).encode())
+            return resp
+    p = pm.poller_modbus.__new__(pm.poller_modbus)
+    p.client, p.unit, p.description = Slave(host='localhost', port=1), 1, 'replay'
+    for count in (1, 2, 3, 7, 8, 9, 15):
+        got = pm.poller_modbus._read(p, 1, count)
+        got = [got] if count == 1 else list(got)
+        if got != [True] * count:
+            return dict(confirmed=True, function='cpppo.remote.plc_modbus.poller_modbus._read', input='_read(1, %d) over a slave whose coils are all ON' % count,
+                        observed='%d values: %r' % (len(got), got), required='exactly the %d requested values' % count)
+    return dict(confirmed=False)
+
+
+def read_result_specs():
+    note = ('FRAGMENT (T9): the last statement of poller_modbus._read; `values` is the decoded response (at least `count` long, possibly padded). '
+            'The request / response exchange before it is device I/O (bounded tier: the real _read over an in-process slave)')
+    mk = lambda name, requires, ensures: Spec('poller_modbus._read[%s]' % name, ('remote/plc_modbus.py', 'poller_modbus._read'), params={'count': 'Int'},
+                                              fragment=frag_read_result, cls_name='poller_modbus', fields={}, hints=dict(locals={'values': 'IntList'}),
+                                              requires=requires, ensures=ensures, raises={}, modifies=[], replay=replay_read_result, note=note)
+    return [mk('result, several registers', 'count > 1 and len(values) >= count',
+               [('a poll of (address, count) supplies values for exactly its own count registers (decoded bit responses are padded to whole bytes)',
+                 'len(result) == count and forall(0, count, lambda k: result[k] == values[k])')]),
+            mk('result, one register', 'count == 1 and len(values) >= 1', [('a single register is handed over as its value', 'result == values[0]')])]
+
+
+# ------------------------------------------------------------------------------------------------ poller._store: which registers a received block may touch
+class IMapV(object):
+    """the poller's register table: a dict keyed by integer addresses, as a domain array and a value array"""
+    def __init__(self, dom, val):
+        self.dom, self.val = dom, val
+
+    def __repr__(self):
+        return 'IMapV'
+
+
+IDom, IVal = z3.ArraySort(z3.IntSort(), z3.BoolSort()), z3.ArraySort(z3.IntSort(), z3.IntSort())
+DOM0, VAL0 = z3.Const('_g_dom0', IDom), z3.Const('_g_val0', IVal)
+
+
+def frag_store_loop(eng, fdef):
+    import ast
+    last = fdef.body[-1]
+    if not (isinstance(last, ast.If) and ast.unparse(last.test) == 'self.online'):
+        raise Unsupported('stale contract: plc._store does not end with `if self.online:`')
+    return [last]
+
+
+def data_field(eng, name, st):
+    st, ref = eng.new_list(st, IMapV(DOM0, VAL0))
+    return ref, st
+
+
+def imap_contains(eng, cur, x, st):
+    if isinstance(cur, IMapV):
+        return z3.Select(cur.dom, to_int(x))
+    return None
+
+
+def imap_set_item(eng, b, cur, i, v, st, line):
+    if not isinstance(cur, IMapV):
+        return None
+    s = st.clone()
+    s.heap[(b.id, 'val')] = IMapV(z3.Store(cur.dom, to_int(i), z3.BoolVal(True)), z3.Store(cur.val, to_int(i), to_int(v)))
+    return [(s, None)]
+
+
+def imap_havoc(eng, v, name):
+    if isinstance(v, IMapV):
+        return IMapV(fresh(name + '.dom', IDom), fresh(name + '.val', IVal))
+    return None
+
+
+def _cur_map(pe):
+    from pyvc.vals import RefV
+    ref = pe.ns['self._data'] if 'self._data' in pe.ns else None
+    return ref
+
+
+def store_spec():
+    from pyvc.vals import RefV
+
+    def mapof(pe, x):
+        if isinstance(x, RefV) and hasattr(pe, 'st'):
+            x = pe.st.heap[(x.id, 'val')]
+        if not isinstance(x, IMapV):
+            raise Unsupported('register table expected, got %r' % (x,))
+        return x
+    funcs = dict(has=lambda pe, m, a: BoolV(z3.Select(mapof(pe, m).dom, to_int(a))), at=lambda pe, m, a: IntV(z3.Select(mapof(pe, m).val, to_int(a))),
+                 had=lambda pe, a: BoolV(z3.Select(DOM0, to_int(a))), was=lambda pe, a: IntV(z3.Select(VAL0, to_int(a))))
+    HIT = '(self.online and address <= a < address + len(value) and (create or had(a)))'
+    POST = ('forall(lambda a: has(self._data, a) == (had(a) or %s))' % HIT,
+            'forall(lambda a: implies(has(self._data, a), at(self._data, a) == (value[a - address] if %s else was(a))))' % HIT)
+    HITK = '(address <= a < address + offset and (create or had(a)))'
+    inv = [('the registers known so far', 'forall(lambda a: has(self._data, a) == (had(a) or %s))' % HITK),
+           ('their values so far', 'forall(lambda a: implies(has(self._data, a), at(self._data, a) == (value[a - address] if %s else was(a))))' % HITK)]
+    return Spec('plc._store[received block]', ('remote/plc.py', 'poller._store'), params={'address': 'Int', 'create': 'Bool'}, fragment=frag_store_loop,
+                fields={'online': 'Bool', '_data': data_field}, cls_name='poller',
+                hints=dict(locals={'value': 'IntList'}, funcs=funcs, contains=imap_contains, set_item=imap_set_item, havoc_value=imap_havoc),
+                loops={0: Loop(invariant=inv, index='offset', modifies=['self._data'])},
+                ensures=[('a received block creates / keeps exactly these registers: with create=False no register the table does not already hold', POST[0]),
+                         ('and changes only registers inside [address, address + len(value)), each to its own value of the block', POST[1])],
+                raises={}, modifies=['self._data'],
+                note='FRAGMENT (T9): the `if self.online:` statement of plc._store (the value normalisation and the log line before it are not part of it); '
+                     'the register table is a map over integer addresses (domain and value arrays)')
+
+
+def poller_call_sites(repo):
+    """Call-site obligations of poller_modbus._poller, decided on its AST: the ranges it walks are the merge of the known registers, every range
+    is read as (address, count) of the walk, and what was read is stored at that address with create=False (the precondition under which the _store
+    contract confines a block to known registers)."""
+    import ast
+    mod, cls, fdef = repo.find_function('remote/plc_modbus.py', 'poller_modbus._poller')
+    loops = [n for n in ast.walk(fdef) if isinstance(n, ast.For) and ast.unparse(n.target) == '(address, count)']
+    if len(loops) < 1:
+        raise Unsupported('stale contract: _poller has no `for address, count in ...` walk')
+    walk = [l for l in loops if any(isinstance(c, ast.Call) and ast.unparse(c.func) == 'self._read' for c in ast.walk(l))]
+    if len(walk) != 1:
+        raise Unsupported('stale contract: _poller has %d range walks that read' % len(walk))
+    walk = walk[0]
+    src = ast.unparse(walk.iter)
+    assigns = [n for n in ast.walk(fdef) if isinstance(n, ast.Assign) and ast.unparse(n.targets[0]) == src]
+    merged = [a for a in assigns if ast.unparse(a.value).replace(' ', '') == 'set(merge(((a,1)forainself._data),reach=self.reach))']
+    reads = [c for c in ast.walk(walk) if isinstance(c, ast.Call) and ast.unparse(c.func) == 'self._read']
+    stores = [c for c in ast.walk(fdef) if isinstance(c, ast.Call) and ast.unparse(c.func) == 'self._store']
+    rebinds = [n for n in ast.walk(walk) if isinstance(n, (ast.Assign, ast.AugAssign)) and any(
+        isinstance(t, ast.Name) and t.id in ('address', 'count') for t in ast.walk(n.targets[0] if isinstance(n, ast.Assign) else n.target))]
+    bad_reads = [c for c in reads if [ast.unparse(a) for a in c.args[:2]] != ['address', 'count']]
+    read_targets = set(ast.unparse(n.targets[0]) for n in ast.walk(walk) if isinstance(n, ast.Assign) and isinstance(n.value, ast.Call) and ast.unparse(n.value.func) == 'self._read')
+    bad_stores = [c for c in stores if not (len(c.args) >= 2 and ast.unparse(c.args[0]) == 'address' and ast.unparse(c.args[1]) in read_targets
+                                            and any(k.arg == 'create' and isinstance(k.value, ast.Constant) and k.value.value is False for k in c.keywords))]
+    outside = [c for c in stores if not any(c is x for x in ast.walk(walk))]
+    out = []
+    for name, count, want in (('the walked ranges are set(merge((a, 1) for a in self._data, reach=self.reach)), assigned once', len(merged) if len(assigns) == 1 else 0, 1),
+                              ('every read asks for (address, count) of the walk', len(bad_reads), 0), ('at least one read per range', min(len(reads), 1), 1),
+                              ('address / count are not rebound inside the walk', len(rebinds), 0),
+                              ('every store puts what was read at the address of the walk, with create=False', len(bad_stores), 0),
+                              ('nothing is stored outside the walk', len(outside), 0)):
+        v = z3.Int('n_%d' % (__import__('zlib').crc32(name.encode()) % 10 ** 8))
+        out.append((name, [v == count], v == want))
+    return out
+
+
 def contracts(repo):
-    return [shatter_spec(), merge_spec()]
+    return [shatter_spec(), merge_spec()] + read_result_specs() + [store_spec(), Custom('poller_call_sites', poller_call_sites,
+            note='call-site obligations on the AST of poller_modbus._poller: merge -> walk -> _read(address, count) -> _store(address, value, create=False)')]
 
 
 # ------------------------------------------------------------------------------------------------ bounded tier
